@@ -557,6 +557,7 @@ pub fn run(ctx: &mut Ctx) {
     super::replay_corpus(ctx, replay);
     ctx.run_suite(&ResponseSuite);
     ctx.run_suite(&ResponseH3Suite);
+    ctx.run_suite(&super::c10real::RealConnectSuite);
     ctx.assume("HTTP/3 runs in real time against the real QUIC listener with a 400 ms establishment timeout; the time of the response is judged on HTTP/1.1 and HTTP/2 only (virtual clock)");
     ctx.assume("a multiplexer whose creation fails after the 200 had to be sent is don't-care for the status (exactly one response still required)");
     ctx.assume("CONNECT with an Expect header is answered 417 by the codec before the tunnel channel and is excluded");
@@ -566,6 +567,7 @@ pub fn replay(ctx: &mut Ctx, suite: &str, case: &Value) -> bool {
     match suite {
         "final-response" => ctx.replay_suite(&ResponseSuite, case),
         "final-response-h3" => ctx.replay_suite(&ResponseH3Suite, case),
+        "real-connect-errors" => ctx.replay_suite(&super::c10real::RealConnectSuite, case),
         _ => false,
     }
 }
